@@ -1,3 +1,133 @@
-import JSight.Basic
+import JSight.Gen.Facts
+/-!
+C03 — determinism: the Go code has no clock / random / goroutine, and the only sources of iteration-order
+nondeterminism are the reviewed `range`-over-map loops, each of which is order-independent.
+-/
 namespace JSight.C03
+
+/-- the reviewed list of places where the Go code ranges over a map (file, function, operand). A new or moved
+    map loop has no order-independence argument and breaks this theorem. -/
+def reviewedSites : List (String × String × String) :=
+  [("catalog/schema_jsight.go", "prepareJSightSchema", "enumRules"),
+   ("core/build_catalog.go", "buildUserTypes", "core.rules"),
+   ("core/compile_catalog.go", "getPropertiesNames", "pp")]
+
+theorem sites_covered : Gen.mapRanges.map (fun m => (m.1, m.2.1, m.2.2.1)) = reviewedSites := by decide
+
+theorem no_clock_no_random_no_goroutine : Gen.nondetImports = [] ∧ Gen.goStatements = [] := ⟨rfl, rfl⟩
+
+/-! ### site 3: collect, sort, join -/
+
+/-- sorted lists (for `≤` on strings) that are permutations of each other are equal -/
+theorem sorted_perm_eq (l₁ l₂ : List String)
+    (h₁ : l₁.Pairwise (fun a b => decide (a ≤ b) = true)) (h₂ : l₂.Pairwise (fun a b => decide (a ≤ b) = true))
+    (h : l₁.Perm l₂) : l₁ = l₂ :=
+  List.Perm.eq_of_pairwise (le := fun a b => decide (a ≤ b) = true)
+    (fun a b _ _ hab hba => String.le_antisymm (of_decide_eq_true hab) (of_decide_eq_true hba)) h₁ h₂ h
+
+theorem sorted_mergeSort_le (l : List String) :
+    (l.mergeSort (fun a b => decide (a ≤ b))).Pairwise (fun a b => decide (a ≤ b) = true) :=
+  List.pairwise_mergeSort (le := fun a b => decide (a ≤ b))
+    (fun _ _ _ hab hbc => decide_eq_true (String.le_trans (of_decide_eq_true hab) (of_decide_eq_true hbc)))
+    (fun a b => by
+      rcases String.le_total a b with h | h
+      · simp [h]
+      · simp [h])
+    l
+
+/-- site 3 (`getPropertiesNames`: the names are collected from the map, SORTED, then joined): the message does not
+    depend on the iteration order -/
+theorem sorted_names_perm (l₁ l₂ : List String) (h : l₁.Perm l₂) :
+    (l₁.mergeSort (fun a b => decide (a ≤ b))) = (l₂.mergeSort (fun a b => decide (a ≤ b))) :=
+  sorted_perm_eq _ _ (sorted_mergeSort_le l₁) (sorted_mergeSort_le l₂)
+    (((List.mergeSort_perm l₁ _).trans h).trans (List.mergeSort_perm l₂ _).symm)
+
+/-! ### sites 1 and 2: register every (name, rule) pair on a schema object
+
+The schema object is modelled as a finite map `String → Option Nat` (rule identities are numbers);
+`Set(name, rule)` overwrites. -/
+
+/-- one `schema.Set(name, rule)` (overwriting), on the lookup-function model of the map -/
+def register (m : String → Option Nat) (kv : String × Nat) : String → Option Nat :=
+  fun k => if k = kv.1 then some kv.2 else m k
+
+/-- the loop body run over the pairs in iteration order `l`, starting from the empty schema -/
+def registerAll (l : List (String × Nat)) : String → Option Nat :=
+  l.foldl register (fun _ => none)
+
+theorem register_comm (m : String → Option Nat) (x y : String × Nat) (h : x.1 ≠ y.1) :
+    register (register m x) y = register (register m y) x := by
+  funext k
+  simp only [register]
+  by_cases hy : k = y.1
+  · by_cases hx : k = x.1
+    · exact absurd (hx.symm.trans hy) h
+    · simp [hy, Ne.symm h]
+  · simp [hy]
+
+theorem foldl_register_perm (l₁ l₂ : List (String × Nat)) (h : l₁.Perm l₂) :
+    (l₁.map (·.1)).Nodup → ∀ m, l₁.foldl register m = l₂.foldl register m := by
+  induction h with
+  | nil => intro _ _; rfl
+  | cons x _ ih =>
+    intro hk m
+    rw [List.map_cons, List.nodup_cons] at hk
+    exact ih hk.2 (register m x)
+  | swap x y l =>
+    intro hk m
+    simp only [List.map_cons, List.nodup_cons, List.mem_cons, not_or] at hk
+    simp only [List.foldl_cons]
+    rw [register_comm m y x hk.1.1]
+  | trans h₁₂ _ ih₁ ih₂ =>
+    intro hk m
+    rw [ih₁ hk m]
+    exact ih₂ ((h₁₂.map (·.1)).nodup_iff.mp hk) m
+
+/-- sites 1 and 2: the resulting map does not depend on the iteration order when the keys are distinct
+    (they are: the pairs come out of a Go map) -/
+theorem register_perm (l₁ l₂ : List (String × Nat)) (h : l₁.Perm l₂) (hk : (l₁.map (·.1)).Nodup) (k : String) :
+    registerAll l₁ k = registerAll l₂ k := by
+  unfold registerAll
+  rw [foldl_register_perm l₁ l₂ h hk]
+
+/-- what the registered map contains: exactly the pairs (with distinct keys) -/
+theorem registerAll_lookup (l : List (String × Nat)) (hk : (l.map (·.1)).Nodup) (k : String) (v : Nat) :
+    registerAll l k = some v ↔ (k, v) ∈ l := by
+  have gen : ∀ (l : List (String × Nat)) (m : String → Option Nat), (l.map (·.1)).Nodup →
+      (l.foldl register m k = some v ↔ ((k, v) ∈ l ∨ (k ∉ l.map (·.1) ∧ m k = some v))) := by
+    intro l
+    induction l with
+    | nil => intro m _; simp
+    | cons x r ih =>
+      intro m hnd
+      rw [List.map_cons, List.nodup_cons] at hnd
+      rw [List.foldl_cons, ih (register m x) hnd.2]
+      simp only [register, List.mem_cons, List.map_cons, not_or]
+      constructor
+      · rintro (h | ⟨h1, h2⟩)
+        · exact Or.inl (Or.inr h)
+        · by_cases hx : k = x.1
+          · simp only [hx, if_true] at h2
+            injection h2 with h2
+            left; left
+            rw [hx, ← h2]
+          · simp only [hx, if_false] at h2
+            exact Or.inr ⟨⟨hx, h1⟩, h2⟩
+      · rintro ((h | h) | ⟨⟨h1, h2⟩, h3⟩)
+        · right
+          rw [← h]
+          refine ⟨?_, by simp⟩
+          have : x.1 = k := by rw [← h]
+          rw [← this]; exact hnd.1
+        · exact Or.inl h
+        · exact Or.inr ⟨h2, by simp [h1, h3]⟩
+  unfold registerAll
+  rw [gen l _ hk]
+  simp
+
+/-! non-vacuity -/
+example : ["pp", "b", "a"].mergeSort (fun a b => decide (a ≤ b)) = ["a", "b", "pp"] := by decide +kernel
+example : registerAll [("a", 1), ("b", 2)] "b" = registerAll [("b", 2), ("a", 1)] "b" ∧
+    registerAll [("a", 1), ("b", 2)] "b" = some 2 := by decide
+
 end JSight.C03
